@@ -688,17 +688,27 @@ def build_mpas(am, d, rng):
 # SCRIP
 
 def scrip_dialect(rng, am, force=None):
-    d = {"lon": rng.choice(["180", "360"]), "pad": "repeat_last", "extra_w": 0 if am.uniform() and rng.random() < 0.8 else rng.choice([0, 1])}
+    d = {"lon": rng.choice(["180", "360"]), "pad": "repeat_last", "extra_w": 0 if am.uniform() and rng.random() < 0.8 else rng.choice([0, 1]),
+         "dup": rng.choice([None, None, None, "start", "middle", "any"])}
     if force:
         d.update(force)
     return d
 
 
 def build_scrip(am, d, rng):
-    w = am.width() + d["extra_w"]
+    # cells may list a corner twice at the START or in the MIDDLE of their row (e.g. polar cells written
+    # (pole, pole, a, b)): such a repetition is part of the face the source describes; only the TRAILING run of
+    # repetitions of the last corner is padding
+    faces = [list(f) for f in am.faces]
+    if d.get("dup"):
+        for f in faces:
+            if rng.random() < 0.5:
+                j = 0 if d["dup"] == "start" else (rng.randrange(1, len(f) - 1) if d["dup"] == "middle" else rng.randrange(0, len(f) - 1))
+                f.insert(j, f[j])
+    w = max(len(f) for f in faces) + d["extra_w"]
     lon = lon_conv(am.lon, d["lon"])
-    clon = [[lon[i] for i in f] + [lon[f[-1]]] * (w - len(f)) for f in am.faces]
-    clat = [[am.lat[i] for i in f] + [am.lat[f[-1]]] * (w - len(f)) for f in am.faces]
+    clon = [[lon[i] for i in f] + [lon[f[-1]]] * (w - len(f)) for f in faces]
+    clat = [[am.lat[i] for i in f] + [am.lat[f[-1]]] * (w - len(f)) for f in faces]
     fc = am.face_centres()
     flon = lon_conv([c[0] for c in fc], d["lon"])
     ds = xr.Dataset()
@@ -711,12 +721,12 @@ def build_scrip(am, d, rng):
     ds["grid_area"] = xr.DataArray(garea, dims=["grid_size"], attrs={"units": "km^2"})
     ds["grid_imask"] = xr.DataArray(np.ones(am.n_face, dtype=np.int32), dims=["grid_size"])
     ds["grid_dims"] = xr.DataArray(np.array([am.n_face], dtype=np.int32), dims=["grid_rank"])
-    ex = Expect(am, pos=list(zip(lon, am.lat)))
+    ex = Expect(am, faces=faces, pos=list(zip(lon, am.lat)))
     ex.aux["face_coords"] = list(zip(flon, [c[1] for c in fc]))
     ex.aux["areas"] = garea.tolist()
-    ex.n_node = len({(lon[i], am.lat[i]) for f in am.faces for i in f})
-    padded = any(len(f) < w for f in am.faces)
-    return ds, ex, {"clon": clon, "clat": clat, "padded": padded}
+    ex.n_node = len({(lon[i], am.lat[i]) for f in faces for i in f})
+    padded = any(len(f) < w for f in faces)
+    return ds, ex, {"clon": clon, "clat": clat, "padded": padded, "faces": faces}
 
 
 # ---------------------------------------------------------------------------------------------
